@@ -1,6 +1,6 @@
 CONSTANTS
-  Queries <- MCQueries
-  InitFiles <- MCInitFiles
+  Queries <- GenQueries
+  InitFiles <- GenInitFiles
   MaxSizes <- MCMax
   MaxSessions = 0
 INIT GInit
